@@ -49,6 +49,11 @@ def _pool():
     for k in range(3):
         pool.append(gen(k))
         pool.append(xml(k))
+    # plain origins of the base class (a whole file, as a tool would record it) next to their subclasses
+    from pyoak.origin import EntireSourcePosition, Origin
+
+    for k in (0, 1):
+        pool.append(({"kind": "whole", "src": k, "pos_fqn": "(entire source)"}, Origin(srcs[k], EntireSourcePosition())))
     # operands that have a real position but no source (NO_SOURCE): they are not NoOrigin
     from pyoak.origin import NO_SOURCE
 
